@@ -81,6 +81,16 @@ func (ex *Exec) call(fn *ssa.Function, args []Value) Value {
 }
 
 func (ex *Exec) callFn(fn *ssa.Function, args []Value, env []Value) Value {
+	if fn.Synthetic == "package initializer" {
+		// package initialisers are run (once per path) by ensureInit only
+		if fn.Pkg != nil && !ex.initDone[fn.Pkg] {
+			ex.ensureInit(fn.Pkg)
+			return nil
+		}
+		if ex.initDirect != fn {
+			return nil
+		}
+	}
 	if r, ok := ex.intrinsic(fn, args); ok {
 		return r
 	}
